@@ -358,7 +358,7 @@ def run(ck):
             proof_ok = False
     exe = recsolver.build(ck)
     drv = ck.driver('drv_c04')
-    ncases = 120 if ck.tier == 'quick' else 2500
+    ncases = 120 if ck.tier == 'quick' else 1800
     st = Stats()
     work = os.path.join(BUILD, 'c04')
     shutil.rmtree(work, ignore_errors=True)
